@@ -287,21 +287,33 @@ def cases(tier, seed):
                                             n_modes=k, solver=solver, oversample=ov))
 
     # ---------------------------------------------------------------- F  pca_all_vs_none
-    for cls in ("CPCCA", "MCA", "CCA", "RDA"):
-        shapes = [(9, 4, 3)] if q else [(9, 4, 3), (12, 6, 4)]
-        if cls == "MCA":
-            shapes = shapes + [(6, 4, 6)] + ([] if q else [(5, 6, 4)])
+    for cls in ("CPCCA", "MCA", "CCA", "RDA", "ComplexCPCCA", "ComplexMCA", "ComplexCCA", "ComplexRDA"):
+        cplx = cls.startswith("Complex")  # genuinely complex fields: the PCA basis V is complex, conjugates matter
+        base = cls[7:] if cplx else cls
+        shapes = [(9, 4, 3)] if (q or cplx) else [(9, 4, 3), (12, 6, 4)]
+        if base == "MCA":
+            shapes = shapes + [(6, 4, 6)] + ([] if (q or cplx) else [(5, 6, 4)])
         for (n, px, py) in shapes:
-            for spec in ((specs_q if q else specs_full) + (["rank_def"] if cls == "MCA" else [])):
-                for alpha in ([1.0, 0.5, 0.0, [0.0, 1.0], [0.3, 0.7]] if cls == "CPCCA" else [None]):
-                    if cls == "CPCCA" and n - 1 < max(px, py):
+            for spec in ((specs_q if q else specs_full) + (["rank_def"] if base == "MCA" else [])):
+                if cplx and spec not in ("geometric", "flat_pair", "rank_def"):
+                    continue
+                for alpha in ([1.0, 0.5, 0.0, [0.0, 1.0], [0.3, 0.7]] if base == "CPCCA" else [None]):
+                    if base == "CPCCA" and n - 1 < max(px, py):
+                        continue
+                    if cplx and q and alpha not in (None, 0.5, [0.0, 1.0]):
                         continue
                     for std, cl in itertools.product(_ff(), _ff()):
                         if q and (std and cl):
                             continue
+                        if cplx and (std != cl or (q and std)):
+                            continue
                         for k in range(1, min(px, py) + 1):
                             for solver in ("full", "randomized") if q else ("full", "auto", "randomized"):
                                 if q and solver != "full" and (std or cl):
+                                    continue
+                                if cplx and solver == "randomized" and k >= min(px, py):
+                                    continue  # scipy svds documents k < min(shape)
+                                if cplx and q and solver != "full" and spec != "geometric":
                                     continue
                                 out.append(dict(pair="pca_all_vs_none", model=cls, shape=[n, px, py], spec=spec, alpha=alpha, standardize=std, coslat=cl,
                                                 weights=False, n_modes=k, solver=solver, obs=_depth(q, k, min(px, py), solver)))
@@ -419,6 +431,14 @@ def mode_groups(sfull, k, gap=1e-3, zero=1e-9):
     return out
 
 
+def _unit_factor(a, b, phase):
+    """the sign (real) or unit phase (complex fields) s that best maps b onto a."""
+    ip = np.vdot(b, a)
+    if phase:
+        return ip / abs(ip) if abs(ip) > 0 else 1.0
+    return 1.0 if np.real(ip) >= 0 else -1.0
+
+
 def _tie(b):
     a = np.sort(np.abs(b))[::-1]
     return a.size >= 2 and (a[0] - a[1]) <= 1e-6 * max(a[0], 1e-300)
@@ -452,7 +472,7 @@ class Cmp:
             return False
         return True
 
-    def modal(self, items, sfull, k, tol, sign_exact, joint=True):
+    def modal(self, items, sfull, k, tol, sign_exact, joint=True, phase=False):
         """items: [(name, A, B, gram_invariant)] with columns = modes; A from the named route, B from the general route.
         One sign per mode, determined on the first item and imposed on all others (they flip together in an SVD)."""
         for kind, idx in mode_groups(sfull, k):
@@ -463,16 +483,19 @@ class Cmp:
                 self.groups["sign_exact"] += 1 if sign_exact else 0
                 j = idx[0]
                 a0, b0 = items[0][1][:, j], items[0][2][:, j]
-                s = 1.0 if np.real(np.vdot(b0, a0)) >= 0 else -1.0
+                s0 = _unit_factor(a0, b0, phase)
                 for (name, A, B, _) in items:
-                    if not joint:
-                        s = 1.0 if np.real(np.vdot(B[:, j], A[:, j])) >= 0 else -1.0
+                    s = s0
+                    if not joint or (phase and name.split("_")[0] in ("homogeneous", "heterogeneous", "predict")):
+                        # correlation patterns carry the conjugate phase of the scores they are computed from
+                        s = _unit_factor(A[:, j], B[:, j], phase)
                     scale = max(np.abs(B).max(), np.abs(A).max(), 1e-300)
                     e = np.abs(A[:, j] - s * B[:, j]).max() / scale
                     self.compared += 1
                     if not e <= tol:
-                        self.bad(name, "mode %d: max|named - sign*general|/scale = %.3e (tol %.0e, sign %+d)" % (j + 1, e, tol, s))
-                if sign_exact and s < 0 and not _tie(b0) and not _tie(a0):
+                        self.bad(name, "mode %d: max|named - %s*general|/scale = %.3e (tol %.0e)" % (j + 1, "phase" if phase else "sign", e, tol))
+                s = s0
+                if sign_exact and (not phase) and s < 0 and not _tie(b0) and not _tie(a0):
                     self.bad("sign_of_mode", "mode %d has opposite sign although both routes fix the sign in the same space" % (j + 1))
             else:
                 for (name, A, B, inv) in items:
@@ -536,6 +559,11 @@ def cross_obs(m, refx, refy, k, dx, dy, hilbert=False, depth="full"):
         o["scores_Y/normalized=%s" % nrm] = _m(sy, ["time"], refy)
     o["squared_covariance_fraction"] = _vec(m.squared_covariance_fraction(), k)
     o["cross_correlation_coefficients"] = _vec(m.cross_correlation_coefficients(), k)
+    # reconstruction of both fields from the retained modes (basis-, sign- and phase-free)
+    sx, sy = m.scores(normalized=False)
+    rx, ry = m.inverse_transform(X=sx, Y=sy)
+    o["inverse_transform_X"] = D.to_matrix(rx, ["time"], ["lat", "lon"], refx)
+    o["inverse_transform_Y"] = D.to_matrix(ry, ["time"], ["lat", "lon"], refy)
     if depth != "full":
         return o
     o["fraction_variance_X_explained_by_X"] = _vec(m.fraction_variance_X_explained_by_X(), k)
@@ -878,7 +906,8 @@ def run_pca_all_vs_none(case, seed, feats):
         C.modal([("components", a["comps"], b["comps"], True), ("scores", a["scores"], b["scores"], True)], sfull, k, tol, sign_exact=False)
         return _done(C, dict(k=k))
 
-    X, dx, Y, dy = _cross_inputs(case, seed)
+    cplx = case["model"].startswith("Complex")
+    X, dx, Y, dy = _cross_inputs(case, seed, cplx=cplx)
     refx, refy = ref_labels(dx, k), ref_labels(dy, k)
     Mx, My = pre(X, dx, case), pre(Y, dy, case)
     if case["model"] == "multi.CCA":
@@ -908,11 +937,13 @@ def run_pca_all_vs_none(case, seed, feats):
 
     cls = getattr(xe.cross, case["model"])
     kw0 = dict(n_modes=k, standardize=case["standardize"], use_coslat=case["coslat"], solver=case["solver"], random_state=7)
-    if case["model"] == "CPCCA":
+    if cplx and case["solver"] != "full":
+        tol = TOL_LOBPCG  # complex + truncated solver = scipy svds(lobpcg), iterative
+    if case["model"] in ("CPCCA", "ComplexCPCCA"):
         kw0["alpha"] = case["alpha"]
         ax, ay = _alpha2(case["alpha"])
     else:
-        ax, ay = ALPHAS[case["model"]]
+        ax, ay = ALPHAS[case["model"][7:] if cplx else case["model"]]
 
     def fa():
         m = cls(use_pca=True, n_pca_modes="all", **kw0)
@@ -935,15 +966,20 @@ def run_pca_all_vs_none(case, seed, feats):
     whitened = not (ax == 1 and ay == 1)
     groups = mode_groups(sfull, k)
     clean = all(kind == "single" for kind, _ in groups)
+    noskip = all(kind != "skip" for kind, _ in groups)
     mk = {key for key, _ in modal_keys}
     for key in a:
         if key in mk:
             continue
-        if key != "singular_values" and not clean:
+        if key.startswith("inverse_transform"):
+            if not noskip:
+                continue  # the sum over the retained modes is basis-free only if no degenerate cluster is cut by k
+        elif key != "singular_values" and not clean:
             continue  # per-mode diagnostics of a mode inside a degenerate/null cluster depend on the arbitrary basis
         C.direct(key.split("/")[0], a[key], b[key], tol)
     items = [(key.split("/")[0], a[key], b[key], inv and not whitened) for key, inv in modal_keys if key in a]
-    C.modal(items, sfull, k, tol, sign_exact=False)
+    # complex fields: a singular pair is defined up to a common unit phase (the complex counterpart of the sign)
+    C.modal(items, sfull, k, tol, sign_exact=False, phase=cplx)
     return _done(C, dict(k=k))
 
 
